@@ -26,6 +26,12 @@ CLAIMS = {
  "C07": ("other", "constant propagation of guards + effect tracing of every insert/toggle call site into a protograph table; literal-table rules; symbolic normal forms",
    "Decides the table and placement clauses: (rate,k)->M table, k=(blocks-3)M, 3M x (k+3M) allocation, every insert/toggle of AR4JACode::h normalised per rate to (row block, column block, I|Pi_k) and compared with the Blue Book protograph (block-column degrees incl. punctured degree 6 follow), insert-then-toggle GF(2) discipline, theta_k values, phi_k shape/bounds/pinned values, index shapes and the pi_k formula, C2 circulant table and expansion. Rank, invertibility and girth of the expanded matrices are value computations and are not decided.",
    "Trusted: my transcription of the Blue Book M table, theta_k and protograph; phi_k and the C2 circulants are tree references confirmed structurally."),
+ "C12": ("other", "symbolic def-use chain of the frame through Worker::simulate + rational normal form of the Eb/N0 -> sigma formula + wiring of constructor arguments",
+   "Decides: the decoder's input is depuncture?(deinterleave?(demodulate(add_noise(modulate(interleave?(puncture?(encode(msg)))))))) with mirrored optional stages guarded by the same fields and identity None arms; errors are counted against the encoded message; depuncture fills with Default and writes only kept blocks; channel and demodulator receive the same sigma = sqrt(0.5/(rate*BITS_PER_SYMBOL*10^(dB/10))), rate = k/n with n after puncturing, BITS_PER_SYMBOL 1/3; noise is Normal(0, sigma) with one draw per real and two separate draws per complex sample added to every element, ChannelType sealed; reported sizes are the fields computed in new(). Gaussianity/independence of the sampled noise is a statistical property of rand_distr and is not decided.",
+   "Trusted: rand_distr::Normal and Distribution::sample semantics; the in-place effect of add_noise is only its += on each element (checked)."),
+ "C13": ("other", "who-may-write scan, guarded-update table from the traced collector loop, rational normal forms of the ratios, event order, MIR dominator rule for sender liveness at the blocking recv",
+   "Decides the structural conditions that make the statistics schedule-independent and the run terminating: accumulators written only by the collector; each of the nine counters updated exactly once per received result under its documented condition; strict stopping rule on the right counter; ratios as stated; all workers terminated and joined before any exit, Finished sent after do_run on every path; no Sender of the result channel alive in the collector at the blocking recv (MIR dominance), disconnect and worker panic mapped to errors. Thread schedules are not enumerated.",
+   "Trusted: std::sync::mpsc and JoinHandle::join semantics."),
  "C14": ("other", "match-table extraction + symbolic dataflow of the demodulator sets + rational normal forms of the formulas",
    "Decides: 8PSK modulator table = DVB-S2 Gray mapping as exact symbolic points (unit energy, Gray), BPSK 0->-1/1->+1; the six maxstar sets of the 8PSK demodulator are exactly the bit=0/bit=1 partitions of the modulator's own table, combined with the right sign and emitted in the modulator's bit order; dot/maxstar/scale formulas as normal forms, BPSK scale tied to the modulator's symbols. Floating-point closeness to log(P0/P1) is not decided.",
    "Trusted: DVB-S2 8PSK mapping as transcribed; exp/ln_1p/max/abs/sqrt treated as the mathematical functions."),
